@@ -679,3 +679,290 @@ func (n *normalizer) deleteTables(used map[types.Object]bool) bool {
 	}
 	return changed
 }
+
+// condHoistRound: `if …f(args)… {A} else {B}` with f a new helper: the call is taken out of the condition
+// (`{ t := f(args); if …t… {A} else {B} }`), so that the inliner can continue the test at each return of f.
+func (n *normalizer) condHoistRound() bool {
+	changed := false
+	for _, f := range n.pp.Syntax {
+		filename := n.fset.File(f.Pos()).Name()
+		var stack []ast.Node
+		ast.Inspect(f, func(x ast.Node) bool {
+			if x == nil {
+				stack = stack[:len(stack)-1]
+				return true
+			}
+			stack = append(stack, x)
+			is, ok := x.(*ast.IfStmt)
+			if !ok || is.Init != nil || len(stack) < 2 || !isListParent(stack[len(stack)-2], is) {
+				return true
+			}
+			if _, isLabeled := stack[len(stack)-2].(*ast.LabeledStmt); isLabeled {
+				return true
+			}
+			var calls []*ast.CallExpr
+			ast.Inspect(is.Cond, func(y ast.Node) bool {
+				switch z := y.(type) {
+				case *ast.FuncLit:
+					return false
+				case *ast.CallExpr:
+					if callee, _ := n.calleeOf(z); callee != nil && n.helpers[callee] {
+						calls = append(calls, z)
+					}
+				}
+				return true
+			})
+			if len(calls) != 1 {
+				return true
+			}
+			call := calls[0]
+			callee, _ := n.calleeOf(call)
+			sig := callee.Type().(*types.Signature)
+			if sig.Results().Len() != 1 || sig.TypeParams().Len() > 0 {
+				return true
+			}
+			fd := n.decls[callee]
+			if fd == nil || fd.Body == nil {
+				return true
+			}
+			// worth it only when the callee has several returns (otherwise the plain hoisting of the inliner does)
+			nret := 0
+			ast.Inspect(fd.Body, func(y ast.Node) bool {
+				switch y.(type) {
+				case *ast.FuncLit:
+					return false
+				case *ast.ReturnStmt:
+					nret++
+				}
+				return true
+			})
+			if nret < 2 {
+				return true
+			}
+			if !n.hoistable(is, call) || len(n.hoistFirst) > 0 {
+				return true
+			}
+			tt, ok := n.typeText(sig.Results().At(0).Type(), f, filename)
+			if !ok {
+				return true
+			}
+			_ = tt
+			start, end := n.off(is.Pos()), n.off(is.End())
+			if n.overlaps(filename, start, end) {
+				return true
+			}
+			n.counter++
+			tmp := fmt.Sprintf("_inl%dc", n.counter)
+			line := n.fset.Position(is.Pos()).Line
+			callText := n.src(filename, call.Pos(), call.End())
+			n.addEdit(filename, start, start, "\n"+n.pinLines(fmt.Sprintf("{\n%s := %s\n", tmp, callText), filename, line)+n.lineDirective(filename, line))
+			n.addEdit(filename, n.off(call.Pos()), n.off(call.End()), tmp)
+			n.addEdit(filename, end, end, "\n"+n.lineDirective(filename, n.fset.Position(is.End()).Line)+"}\n"+n.lineDirective(filename, n.fset.Position(is.End()).Line))
+			n.notes = append(n.notes, fmt.Sprintf("call of %s taken out of the condition at %s:%d", funcKeyOf(callee), shortFile(filename), line))
+			changed = true
+			return false
+		})
+	}
+	return changed
+}
+
+// sinkRound: a local variable declared in a function but used only inside one function literal that runs exactly once
+// per evaluation (`go func(){…}()`, `defer func(){…}()`, `func(){…}()`) is declared inside that literal instead: state a
+// refactoring moved into a struct (and SROA split again) becomes loop-local state of the goroutine that owns it.
+func (n *normalizer) sinkRound() bool {
+	type declInfo struct {
+		stmt   *ast.DeclStmt
+		spec   *ast.ValueSpec
+		parent ast.Node
+		encl   ast.Node
+	}
+	decls := map[types.Object]*declInfo{}
+	blank := map[types.Object][]*ast.AssignStmt{}
+	useLit := map[types.Object]map[*ast.FuncLit]bool{} // innermost once-literal (or nil: used outside any) per use
+	onceLit := map[*ast.FuncLit]bool{}
+	for _, f := range n.pp.Syntax {
+		ast.Inspect(f, func(x ast.Node) bool {
+			var call *ast.CallExpr
+			switch y := x.(type) {
+			case *ast.GoStmt:
+				call = y.Call
+			case *ast.DeferStmt:
+				call = y.Call
+			case *ast.ExprStmt:
+				call, _ = y.X.(*ast.CallExpr)
+			}
+			if call != nil && len(call.Args) == 0 {
+				if lit, ok := ast.Unparen(call.Fun).(*ast.FuncLit); ok {
+					onceLit[lit] = true
+				}
+			}
+			return true
+		})
+	}
+	for _, f := range n.pp.Syntax {
+		var stack []ast.Node
+		ast.Inspect(f, func(x ast.Node) bool {
+			if x == nil {
+				stack = stack[:len(stack)-1]
+				return true
+			}
+			stack = append(stack, x)
+			switch y := x.(type) {
+			case *ast.DeclStmt:
+				gd, ok := y.Decl.(*ast.GenDecl)
+				if !ok || gd.Tok != token.VAR || len(gd.Specs) != 1 || len(stack) < 2 {
+					return true
+				}
+				vs := gd.Specs[0].(*ast.ValueSpec)
+				if len(vs.Names) != 1 || len(vs.Values) > 1 || !strings.HasPrefix(vs.Names[0].Name, "_sroa") {
+					return true
+				}
+				obj := n.info.Defs[vs.Names[0]]
+				if obj == nil {
+					return true
+				}
+				di := &declInfo{stmt: y, spec: vs, parent: stack[len(stack)-2]}
+				for i := len(stack) - 2; i >= 0; i-- {
+					switch stack[i].(type) {
+					case *ast.FuncLit, *ast.FuncDecl:
+						di.encl = stack[i]
+					}
+					if di.encl != nil {
+						break
+					}
+				}
+				decls[obj] = di
+			case *ast.Ident:
+				obj := n.info.Uses[y]
+				if obj == nil {
+					return true
+				}
+				if _, isVar := obj.(*types.Var); !isVar {
+					return true
+				}
+				// `_ = x` keeps the compiler quiet, it is no use
+				if as, ok := stack[len(stack)-2].(*ast.AssignStmt); ok && as.Tok == token.ASSIGN && len(as.Lhs) == 1 && len(as.Rhs) == 1 && as.Rhs[0] == ast.Expr(y) {
+					if l, isId := as.Lhs[0].(*ast.Ident); isId && l.Name == "_" {
+						blank[obj] = append(blank[obj], as)
+						return true
+					}
+				}
+				// the outermost enclosing function literal below the variable's declaring function
+				var lit *ast.FuncLit
+				for i := len(stack) - 2; i >= 0; i-- {
+					if fl, ok := stack[i].(*ast.FuncLit); ok {
+						if obj.Pos() < fl.Pos() || obj.Pos() >= fl.End() {
+							lit = fl
+						}
+					}
+				}
+				if useLit[obj] == nil {
+					useLit[obj] = map[*ast.FuncLit]bool{}
+				}
+				useLit[obj][lit] = true
+			}
+			return true
+		})
+	}
+	var objs []types.Object
+	for obj := range decls {
+		objs = append(objs, obj)
+	}
+	sort.Slice(objs, func(i, j int) bool { return objs[i].Pos() < objs[j].Pos() })
+	changed := false
+	for _, obj := range objs {
+		di := decls[obj]
+		lits := useLit[obj]
+		if len(lits) != 1 {
+			continue
+		}
+		var lit *ast.FuncLit
+		for l := range lits {
+			lit = l
+		}
+		if lit == nil || !onceLit[lit] || !isListParent(di.parent, di.stmt) {
+			continue
+		}
+		// the literal is created in the block that declares the variable (same number of instances of both)
+		litHome := false
+		if blk, ok := di.parent.(*ast.BlockStmt); ok {
+			for _, st := range blk.List {
+				var call *ast.CallExpr
+				switch y := st.(type) {
+				case *ast.GoStmt:
+					call = y.Call
+				case *ast.DeferStmt:
+					call = y.Call
+				case *ast.ExprStmt:
+					call, _ = y.X.(*ast.CallExpr)
+				case *ast.BlockStmt:
+					// the block the inliner wraps a spawned call in
+					for _, st2 := range y.List {
+						switch z := st2.(type) {
+						case *ast.GoStmt:
+							if ast.Unparen(z.Call.Fun) == ast.Expr(lit) {
+								litHome = true
+							}
+						case *ast.DeferStmt:
+							if ast.Unparen(z.Call.Fun) == ast.Expr(lit) {
+								litHome = true
+							}
+						}
+					}
+				}
+				if call != nil && ast.Unparen(call.Fun) == ast.Expr(lit) {
+					litHome = true
+				}
+			}
+		}
+		if !litHome {
+			continue
+		}
+		// initialiser: none, a constant, or a variable that is never reassigned
+		if len(di.spec.Values) == 1 {
+			v := ast.Unparen(di.spec.Values[0])
+			tv := n.info.Types[v]
+			okInit := tv.Value != nil
+			if id, isId := v.(*ast.Ident); isId {
+				if vo, isVar := n.info.Uses[id].(*types.Var); isVar && !n.varBad[vo] && n.varAssign[vo] == nil {
+					if _, reassigned := n.varDef[vo]; !reassigned || n.varDefNode[vo] != nil || true {
+						okInit = true
+					}
+					// the name must mean the same variable inside the literal
+					if inner := n.pp.Types.Scope().Innermost(lit.Body.Lbrace + 1); inner != nil {
+						if _, found := inner.LookupParent(id.Name, lit.Body.Lbrace+1); found != types.Object(vo) {
+							okInit = false
+						}
+					}
+				}
+			}
+			if !okInit {
+				continue
+			}
+		}
+		filename := n.fset.File(di.stmt.Pos()).Name()
+		if n.overlaps(filename, n.off(di.stmt.Pos()), n.off(di.stmt.End())) || n.overlaps(filename, n.off(lit.Body.Lbrace), n.off(lit.Body.Lbrace)+1) {
+			continue
+		}
+		clash := false
+		for _, as := range blank[obj] {
+			if n.overlaps(filename, n.off(as.Pos()), n.off(as.End())) {
+				clash = true
+			}
+		}
+		if clash {
+			continue
+		}
+		text := n.src(filename, di.stmt.Pos(), di.stmt.End())
+		line := n.fset.Position(di.stmt.Pos()).Line
+		n.addEdit(filename, n.off(di.stmt.Pos()), n.off(di.stmt.End()), "")
+		for _, as := range blank[obj] {
+			n.addEdit(filename, n.off(as.Pos()), n.off(as.End()), "")
+		}
+		litLine := n.fset.Position(lit.Body.Lbrace).Line
+		n.addEdit(filename, n.off(lit.Body.Lbrace)+1, n.off(lit.Body.Lbrace)+1, "\n"+n.pinLines(text+"\n_ = "+obj.Name()+"\n", filename, line)+n.lineDirective(filename, litLine))
+		n.notes = append(n.notes, fmt.Sprintf("variable %s, used only by the function literal at %s:%d, declared inside it", obj.Name(), shortFile(filename), litLine))
+		changed = true
+	}
+	return changed
+}
